@@ -186,6 +186,59 @@ func init() {
 			}
 			return ""
 		})
+		// Go-only sequences (event log against the expected text): a deferred function that defers another one while the
+		// list is being run; pooled byte buffers of every size are reset AND put back; deferred functions of the renders
+		// that follow a FAILED render on the same un-reset context still run, each after its own render
+		for _, sq := range []struct {
+			name, tpl, bad, want string
+			n                    int
+		}{
+			{"nested-defer", "{%= si|vdefer2(7) %}{%= si|vdefer(8) %}x", "", "reg7,reg8,ran7,ran8,ran1007", 1},
+			{"nested-defer-twice", "{%= si|vdefer2(7) %}x", "", "reg7,ran7,ran1007,reg7,ran7,ran1007", 2},
+			{"buffer-pool-small", "{%= si|vgrow(100) %}x", "", "acqbuf100,resetbuf100,putbuf0", 1},
+			{"buffer-pool-64k", "{%= si|vgrow(65536) %}x", "", "acqbuf65536,resetbuf65536,putbuf0", 1},
+			{"buffer-pool-big", "{%= si|vgrow(300000) %}{%= si|vgrow(5) %}x", "", "acqbuf300000,acqbuf5,resetbuf300000,putbuf0,resetbuf5,putbuf0", 1},
+			{"after-failed-render", "{%= si|vdefer(2) %}g", "{%= si|vdefer(1) %}{% include c18missing %}", "reg1,reg2,ran1,ran2,reg2,ran2", 2},
+			{"after-failed-writer", "{%= si|vdefer(2) %}g", "WRITER", "reg2,reg2,ran2,ran2,reg2,ran2", 2},
+		} {
+			dyntpl.VerifResetRegistry()
+			key, err, pan := regTpl(sq.tpl, true)
+			if err != nil || pan != "" {
+				r.Internal("C18 sequence template does not parse: " + sq.tpl)
+				continue
+			}
+			ctx := dyntpl.NewCtx()
+			ctx.SetStatic("si", 1)
+			evReset()
+			var steps []string
+			if sq.bad == "WRITER" {
+				werr := dyntpl.Write(&faultWriter{failAt: 1}, key, ctx)
+				steps = append(steps, fmt.Sprintf("render on a failing writer -> %v", werr))
+			} else if sq.bad != "" {
+				kb, err, pan := regTpl(sq.bad, true)
+				if err != nil || pan != "" {
+					r.Internal("C18 sequence template does not parse: " + sq.bad)
+					continue
+				}
+				res := renderSafe(kb, ctx)
+				steps = append(steps, fmt.Sprintf("render %q -> %s", sq.bad, res.ErrStr()))
+			}
+			okRenders := true
+			for i := 0; i < sq.n; i++ {
+				res := renderSafe(key, ctx)
+				steps = append(steps, fmt.Sprintf("render %q -> %q %s", sq.tpl, res.Out, res.ErrStr()))
+				okRenders = okRenders && res.Panic == "" && res.Err == nil
+			}
+			ctx.Reset()
+			steps = append(steps, "ctx.Reset()")
+			log := evStr()
+			r.Count("sequence:"+sq.name, true)
+			r.Dist["go-only-sequences"]++
+			if !okRenders || log != sq.want {
+				r.Violate("sequence "+sq.name+" log="+log, "deferred functions / pooled objects of a sequence of renders on one context are not settled exactly once, in order, each after its own render",
+					map[string]any{"steps": steps, "event_log": log, "expected": sq.want})
+			}
+		}
 		// a pool key registered a second time (another package's init, a late registration) while a context holds
 		// objects of the first registration: every object goes back to the pool it was taken from
 		func() {
